@@ -77,7 +77,7 @@ func c05kinds() []*gen.T {
 	return ks
 }
 
-var c05positions = []string{"direct", "pointer", "slice", "map", "ptrslice"}
+var c05positions = []string{"direct", "pointer", "slice", "map", "ptrslice", "dupname"}
 
 type c05dest struct {
 	t      *gen.T
@@ -86,6 +86,16 @@ type c05dest struct {
 	fSize  uintptr
 	size   uintptr
 	schema *refavro.Schema
+	// dupname position: a second direct field with the same schema name and type (which of the two receives the
+	// value is the decoder's choice; both are legitimate destinations, nothing else is)
+	dIdx  int
+	dOff  uintptr
+	dSize uintptr
+}
+
+// inField: byte o of the destination struct belongs to a field the schema names.
+func (d *c05dest) inField(o uintptr) bool {
+	return (o >= d.fOff && o < d.fOff+d.fSize) || (d.dSize > 0 && o >= d.dOff && o < d.dOff+d.dSize)
 }
 
 func canaryArr(n int) *gen.T { return &gen.T{K: gen.KArray, N: n, Elem: gen.Leaf(gen.KUint8)} }
@@ -107,6 +117,24 @@ func c05build(form c05form, k *gen.T, pos string) (*c05dest, error) {
 		// many separately allocated pointees: their memory comes from the library's own arenas
 		ft = gen.SliceOf(gen.PtrTo(k))
 		fs = `{"type":"array","items":` + form.json + `}`
+	}
+	if pos == "dupname" {
+		t := gen.StructOf(
+			gen.Fld("G0", "guard_pre", false, canaryArr(64)),
+			gen.Fld("D", "f", false, ft), // same schema name as F
+			gen.Fld("P", "pre", false, canaryArr(8)),
+			gen.Fld("F", "f", false, ft),
+			gen.Fld("Q", "post", false, canaryArr(8)),
+			gen.Fld("S", "sibling", false, gen.Leaf(gen.KInt64)),
+			gen.Fld("G1", "guard_post", false, canaryArr(64)),
+		)
+		s, err := refavro.ParseSchema([]byte(`{"type":"record","name":"outer","fields":[{"name":"f","type":` + fs + `},{"name":"inner_a","type":"long"}]}`))
+		if err != nil {
+			return nil, err
+		}
+		rt := t.RT()
+		sd, sf := rt.Field(1), rt.Field(3)
+		return &c05dest{t: t, fIdx: 3, fOff: sf.Offset, fSize: sf.Type.Size(), size: rt.Size(), schema: s, dIdx: 1, dOff: sd.Offset, dSize: sd.Type.Size()}, nil
 	}
 	t := gen.StructOf(
 		gen.Fld("G0", "guard_pre", false, canaryArr(64)),
@@ -260,7 +288,7 @@ func c05cell(c *core.Ctx, form c05form, k *gen.T, pos string, salt int) {
 		base := unsafe.Pointer(pv.Pointer())
 		mem := unsafe.Slice((*byte)(base), dst.size)
 		for o := uintptr(0); o < dst.size; o++ {
-			if o < dst.fOff || o >= dst.fOff+dst.fSize {
+			if !dst.inField(o) {
 				mem[o] = c05pat(o, salt+vi)
 			}
 		}
@@ -277,7 +305,7 @@ func c05cell(c *core.Ctx, form c05form, k *gen.T, pos string, salt int) {
 			return
 		}
 		for o := uintptr(0); o < dst.size; o++ {
-			if (o < dst.fOff || o >= dst.fOff+dst.fSize) && mem[o] != c05pat(o, salt+vi) {
+			if !dst.inField(o) && mem[o] != c05pat(o, salt+vi) {
 				c.Violate("canary", fmt.Sprintf("decoding into %s modified byte %d of the destination struct (field F occupies [%d,%d)): %#x -> %#x\n datum %s", label, o, dst.fOff, dst.fOff+dst.fSize, c05pat(o, salt+vi), mem[o], refavro.Render(rec)), rep)
 				return
 			}
@@ -310,6 +338,14 @@ func c05cell(c *core.Ctx, form c05form, k *gen.T, pos string, salt int) {
 			}
 			c.Count("pointee-disjointness-checks", 1)
 		}
+		if pos == "dupname" {
+			if bad := deepTouch(v.Field(dst.dIdx), 0); bad != "" {
+				c.Violate("invalid-value", fmt.Sprintf("after decoding into %s the other field of the same name holds an invalid value: %s", label, bad), rep)
+				return
+			}
+			c.Count("duplicate-name-decodes", 1)
+			continue // which of the two fields holds the value is not specified
+		}
 		// expected conversion where the model covers the pairing
 		want := reflect.New(rt).Elem()
 		merr := model.FillFromDatum(dst.schema, rec, dst.t, want)
@@ -333,6 +369,38 @@ func c05cell(c *core.Ctx, form c05form, k *gen.T, pos string, salt int) {
 		default:
 			// pairing outside the model: validity and canaries only
 			c.Count("values-validity-only", 1)
+		}
+		// the same destination used again (a caller may decode into a struct it has used before): what the
+		// field then holds is the decoder's business, but it is still a valid value and nothing else moved
+		if rerr == nil {
+			rec2 := c05wrap(pos, d2, d)
+			enc2, err := refavro.Encode(nil, dst.schema, rec2, nil)
+			if err != nil {
+				continue
+			}
+			c.Journal(c.CurCase(), fmt.Sprintf("cell=%s value=%d then %d into the same destination hex=%x", label, vi, (vi+1)%len(form.datums), enc2))
+			rb.Reset(enc2)
+			func() {
+				defer func() { pan = recover() }()
+				_ = codec.Read(rb, base)
+			}()
+			c.Eval(1)
+			rep["hex2"] = fmt.Sprintf("%x", enc2)
+			if pan != nil {
+				c.Violate("decode-panic", fmt.Sprintf("decoding a valid %s into the already used %s panicked: %v", form.name, label, pan), rep)
+				return
+			}
+			for o := uintptr(0); o < dst.size; o++ {
+				if !dst.inField(o) && mem[o] != c05pat(o, salt+vi) {
+					c.Violate("canary", fmt.Sprintf("second decode into %s modified byte %d of the destination struct (field F occupies [%d,%d))\n datums %s then %s", label, o, dst.fOff, dst.fOff+dst.fSize, refavro.Render(rec), refavro.Render(rec2)), rep)
+					return
+				}
+			}
+			if bad := deepTouch(v.Field(dst.fIdx), 0); bad != "" {
+				c.Violate("invalid-value", fmt.Sprintf("after a second decode into the same %s the field holds an invalid value: %s\n datums %s then %s", label, bad, refavro.Render(rec), refavro.Render(rec2)), rep)
+				return
+			}
+			c.Count("second-decodes-into-used-destination", 1)
 		}
 	}
 }
@@ -384,13 +452,18 @@ func c05random(c *core.Ctx, i int) {
 	}
 	c.Count("random.built", 1)
 	rb := avro.NewReadBuf(nil)
+	var used reflect.Value
 	for k := 0; k < 4; k++ {
 		d := ds.GenDatum(r, ds.S, gen.DatumOpts{OutOfRange: 10}, nil)
 		enc, _ := refavro.Encode(nil, ds.S, d, nil)
 		c.Journal(c.CurCase(), fmt.Sprintf("%s hex=%x", label, enc))
 		// guard allocation: [guard 64][struct][guard 64] cannot be built for arbitrary types with
 		// pointers, so the struct is allocated alone and the sanitizer builds watch its surroundings.
-		v := reflect.New(t.RT())
+		// every other datum is decoded into the destination the previous one used
+		if k%2 == 0 || !used.IsValid() {
+			used = reflect.New(t.RT())
+		}
+		v := used
 		rb.Reset(enc)
 		func() {
 			defer func() { pan = recover() }()
@@ -434,7 +507,7 @@ func init() {
 		ID:        "C05",
 		Level:     "exploration",
 		Technique: "runtime monitoring: complete schema-form x Go-kind x position matrix decoded into a canary struct (byte-adjacent guard fields and padding filled with a pattern, verified after every decode), repeated under checkptr and ASan builds in child processes; deep read of the decoded field",
-		Rule: "every cell of {22 schema forms} x {48 Go kinds} x {direct, behind pointer, slice element, map value}, each built codec driven with in-range, boundary and out-of-range datums; plus random compatible (schema, target) pairs with one leaf kind replaced; plus self-containing Go types (tree, list, bag of bags, map of pointers to itself) under finite schemas nested 1-4 levels, decoded from reference-encoded records and compared level by level; " +
+		Rule: "every cell of {22 schema forms} x {48 Go kinds} x {direct, behind pointer, slice element, map value}, each built codec driven with in-range, boundary and out-of-range datums; plus random compatible (schema, target) pairs with one leaf kind replaced; plus self-containing Go types (tree, list, bag of bags, map of pointers to itself) under finite schemas nested 1-4 levels, decoded from reference-encoded records and compared level by level; a further position with a second direct field of the same schema name and type; every built decoder is also run a second time into the destination it has just used; " +
 			"distinct_nontrivial = distinct cells for which a decoder was built and run",
 		Explanation: "A build error is an accepted outcome. For a built decoder: every byte of the destination struct outside field F (align-1 guard arrays directly adjacent to F, padding, a sibling field not in the schema) must keep its pattern; the field must hold a valid value of its type (bool byte 0/1, slices/maps/strings/pointers fully readable); where the model covers the pairing the value must equal the expected conversion and out-of-range datums must be errors. checkptr sees conversions that straddle allocations, ASan sees stores past library-allocated memory (slice backing arrays, bank arenas, map value temporaries).",
 		Assumptions: []string{"ASan does not see intra-object overflow (that is what the canary bytes are for); checkptr does not see a store that stays inside one allocation"},
